@@ -25,7 +25,7 @@ STD_SIGNIFICANT = re.compile(
     r"(::(checked|saturating|wrapping|overflowing)_(add|sub|mul|div|pow|rem)$|cmp::(min|max)$|Ord::(min|max|clamp)$|"
     r"Iterator::(skip|take|filter|rev|step_by|skip_while|take_while|filter_map|nth|last|zip|chain|all|any|find|position|max_by_key|min_by_key)$|"
     r"::(insert|remove|push|push_back|push_front|pop|pop_back|pop_front|extend|extend_from_slice|clear|retain|truncate|drain|split_off|swap_remove|sort\w*|dedup\w*|reverse|entry|or_insert\w*|"
-    r"contains|contains_key|get|get_mut|first|last|is_empty|len|difference|intersection|union|is_disjoint|is_subset)$|"
+    r"contains|contains_key|get|get_mut|first|last|difference|intersection|union|is_disjoint|is_subset)$|"
     r"::(sync_all|sync_data|set_len|write_all|seek|flush|read_exact|rename|remove_file|create|open)$|"
     r"Atomic\w*::(load|store|fetch_add|fetch_sub|fetch_update|swap|compare_exchange)$|"
     r"(Mutex|RwLock)(<.*>)?::(lock|read|write)$|::(send|try_send|recv|try_recv|blocking_send)$|::(from_slice|from_compatible_slice|new_unchecked|from_slice_should_be_ok|as_slice|as_bytes|raw_data)$)")
@@ -126,6 +126,14 @@ def canon(h):
         return ("match", (var,), tuple(a[1:]) + tuple(b), f if flip else t, t if flip else f)
     if op == "match" and a and a[0] in ("Option::Some", "Result::Ok"):
         return ("match", ("Option::None" if a[0] == "Option::Some" else "Result::Err",), b, f, t)
+    # `x.len() == 0` is `x.is_empty()`
+    if op == "eq" and (("lit:0",) in (a, b)):
+        other = a if b == ("lit:0",) else b
+        lens = [x for x in other if re.search(r"^call:.*::len$|^call:len$", x)]
+        if len(lens) == 1 and len(other) == 1:
+            return ("if", ("call:::is_empty",), (), t, f)
+    if op == "if" and a and re.search(r"^call:.*is_empty$", a[0]):
+        a = ("call:::is_empty",)      # the receiver is not part of the form: `x.len() == 0` does not expose it either
     if op == "le":
         op, a, b, t, f = "lt", b, a, f, t
     if op == "lt":
@@ -165,12 +173,17 @@ def side_effects(b, sw, tts, fts, sig_by_bb):
     """significant callees reachable only from the true side / only from the false side of a decision made in block `sw`, within the
     same loop iteration (the walk stops at every block that dominates the decision, i.e. at the enclosing loop heads)"""
     stop = {x for x in range(len(b.blocks)) if b.dominates(x, sw)}
+    # ... and at the point where the two sides join again (the immediate post-dominator of the decision): what follows the
+    # join happens on both sides whatever the statement order
+    join = b.ipdom().get(sw)
+    if join is not None and join >= 0:
+        stop = stop | {join}
     rt, rf = set(), set()
     for t in tts:
-        if t is not None:
+        if t is not None and t not in stop:
             rt |= b.reachable(t, avoid=stop)
     for t in fts:
-        if t is not None:
+        if t is not None and t not in stop:
             rf |= b.reachable(t, avoid=stop)
     ct = {sig_by_bb[x] for x in rt if x in sig_by_bb}
     cf = {sig_by_bb[x] for x in rf if x in sig_by_bb}
